@@ -62,6 +62,12 @@ def run(ctx, selftest=False):
         ctx.count()
         if t["events"][0]["N"] > 1 and any(e["ev"] == "Return" and e["haslp"] and e["rows"] for e in t["events"]):
             ctx.nontrivial(c02._profile_key(t))
+    if not quick:
+        # thorough: the sampler calls made by the repository's own tests, recorded and validated like every other trace
+        from .. import repotests
+        rt, rinfo = repotests.collect(ctx.workdir)
+        ctx.notes["repository_test_traces"] = rinfo
+        traces = traces + rt
     ctx.sample(c02._brief(traces[0])); ctx.sample(c02._brief(traces[-1]))
     verdicts = ctx.validate("SamplerTrace", traces, timeout=3000)
     ctx.judge(traces, verdicts, families=FAMILIES)
